@@ -204,7 +204,10 @@ RULE = ('expression trees over {numeric literal, unit name, *, /, ^} generated t
         'name, energy fixing each of the three mechanical base units, SI, seeds, numericalunits set directly for K alone), '
         'A B A B for every unordered pair, one-keyword-at-a-time random walks with failing / refused resets and steps '
         'back, a pool of ~100 expressions over every base dimension re-evaluated after every step as first spelled and '
-        'with a blank run no earlier call has seen; all eight style tables entry by entry; distinct = distinct '
+        'with a blank run no earlier call has seen; refused calls of every kind (five keywords with valid / unknown / empty / '
+        'wrong-kind names, a foreign keyword among five, six keywords, a seed next to 1..5 keywords) after every kind of state, '
+        'the whole table, the base units and values stored before the call read back after it; all eight style tables entry by '
+        'entry; distinct = distinct '
         '(configuration, string) resp. (choice) resp. (step, string) canonical form; non-trivial = the model returns a '
         'value (not an error case)')
 ASSUMPTIONS = [
@@ -1610,7 +1613,7 @@ def pair_walk(n):
     return out
 
 
-def one_key_walk(rng, t, steps):
+def one_key_walk(rng, t, steps, refusals=False):
     """random walk over working-unit configurations changing exactly ONE keyword per step (another name of the kind,
     keyword dropped, keyword added), with excursions: SI, a seed, the temperature unit alone (numericalunits set
     directly), a reset that raises half-way (unknown name: leaves SI) and a refused one (five keywords: leaves the
@@ -1632,6 +1635,8 @@ def one_key_walk(rng, t, steps):
             out.append({'kind': 'fail', 'kw': bad, 'leaves': 'SI'})
         elif r < 0.25:
             out.append({'kind': 'fail', 'kw': {k: rng.choice(t.by_kind[k]) for k in KINDS}, 'leaves': 'same'})
+        elif r < 0.31 and refusals:      # (search only: the session model's call alphabet has the five keywords only)
+            out.append(gen_refusal(rng, t, rng.choice(REFUSAL_KINDS)))
         elif r < 0.33 and len(out) >= 2 and out[-2]['kind'] in ('named', 'SI', 'seed', 'SI-kw', 'seed-kw'):
             out.append(dict(out[-2]))               # there and back
             if out[-1]['kind'] == 'named':
@@ -1653,6 +1658,77 @@ def one_key_walk(rng, t, steps):
     return out
 
 
+REFUSAL_KINDS = ['five', 'five-unknown-name', 'five-wrong-kind', 'five-empty-name', 'unknown-keyword', 'six',
+                 'seed+one', 'seed+four', 'seed+five', 'SI+named', 'positional-seed+named']
+
+
+def gen_refusal(rng, t, why):
+    """one call of reset_units that the documentation REFUSES (`Raises ValueError: If seed is given with any other parameters,
+    or if more than four of the working unit parameters are given`), of the given kind: five keywords (valid names; an unknown /
+    empty / wrong-kind name among them), more than four keywords one of which is no working-unit keyword, six keywords, a seed
+    (int, 'SI', positional or by keyword) next to 1 .. 5 keywords.  The keywords come in a random order."""
+    five = {k: rng.choice(t.by_kind[k]) for k in KINDS}
+    cfg = {'kind': 'refuse', 'why': why}
+    if why == 'five':
+        kw = five
+    elif why == 'five-unknown-name':
+        kw = dict(five)
+        kw[rng.choice(KINDS)] = rng.choice(['nounit', 'Angstrom', 'EV', 'metre', 'angstroms'])
+    elif why == 'five-empty-name':
+        kw = dict(five)
+        kw[rng.choice(KINDS)] = ''
+    elif why == 'five-wrong-kind':
+        kw = dict(five)
+        a, b = rng.sample(KINDS, 2)
+        kw[a] = rng.choice(t.by_kind[b])
+    elif why == 'unknown-keyword':
+        kw = {k: five[k] for k in rng.sample(KINDS, 4)}
+        kw[rng.choice(['temperature', 'lenght', 'Length', 'force', 'pressure'])] = rng.choice(['K', 'nm', 'GPa', 'nounit'])
+        cfg['documented'] = False      # four working-unit parameters and a foreign one: refused by the code (five keywords); the
+        #                                documentation speaks of "more than four of the working unit parameters" — only "IF it is
+        #                                refused nothing changes" is claimed
+    elif why == 'six':
+        kw = dict(five)
+        kw[rng.choice(['temperature', 'pressure', 'force'])] = rng.choice(['K', 'GPa', 'nN'])
+    else:
+        n = {'seed+one': 1, 'seed+four': 4, 'seed+five': 5, 'SI+named': rng.choice([1, 2, 3, 4]),
+             'positional-seed+named': rng.choice([1, 2, 3, 4])}[why]
+        for _ in range(50):
+            ks = rng.sample(KINDS, n)
+            if not _over(ks):
+                break
+        kw = {k: five[k] for k in ks}
+        cfg['seed'] = 'SI' if why == 'SI+named' else rng.randrange(1, 10 ** 6)
+        cfg['positional'] = why == 'positional-seed+named' or rng.random() < 0.3
+    keys = list(kw)
+    rng.shuffle(keys)
+    cfg['kw'] = {k: kw[k] for k in keys}
+    return cfg
+
+
+def refusal_tour(rng, t):
+    """every kind of refused call after each of several kinds of working-unit state: named (4, 3, 1 keywords), SI, a seed,
+    the temperature unit moved alone — base configuration, then the refused calls one after the other (each is evaluated
+    against the state the base configuration left)."""
+    def named(n):
+        for _ in range(200):
+            ks = rng.sample(KINDS, n)
+            kw = {k: rng.choice(t.by_kind[k]) for k in ks}
+            if not _over(ks) and in_float_range(predict_scales(kw, t.si), t):
+                return {'kind': 'named', 'kw': kw}
+        return {'kind': 'named', 'kw': dict(DEFAULT_KW)}
+    bases = [{'kind': 'named', 'kw': dict(DEFAULT_KW)}, {'kind': 'named', 'kw': dict(length='nm', mass='amu', energy='eV', charge='e')},
+             named(4), named(3), named(rng.choice([1, 2])), {'kind': 'seed', 'seed': rng.randrange(1, 10 ** 6)}, {'kind': 'SI'},
+             {'kind': 'direct-k', 'k': rng.choice([0.25, 1000.0])}]
+    out = []
+    for b in bases:
+        out.append(b)
+        kinds = list(REFUSAL_KINDS)
+        rng.shuffle(kinds)
+        out += [gen_refusal(rng, t, why) for why in kinds]
+    return out
+
+
 def _apply_any(cfg, uc):
     """like _apply, plus numericalunits set directly followed by build_unit() and the failing resets.
     -> ('ok', scales) | ('raised', exception) """
@@ -1669,6 +1745,14 @@ def _apply_any(cfg, uc):
         if k == 'fail':
             _timed(uc.reset_units, **cfg['kw'])
             return 'ok', [float(getattr(nu, b)) for b in BASE]
+        if k == 'refuse':
+            if 'seed' not in cfg:
+                _timed(uc.reset_units, **cfg['kw'])
+            elif cfg.get('positional'):
+                _timed(uc.reset_units, cfg['seed'], **cfg['kw'])
+            else:
+                _timed(uc.reset_units, seed=cfg['seed'], **cfg['kw'])
+            return 'ok', [float(getattr(nu, b)) for b in BASE]
         return 'ok', _apply(cfg)
     except Exception as e:  # noqa
         return 'raised', e
@@ -1679,6 +1763,10 @@ def _cfg_str_any(cfg):
         return 'numericalunits (m, kg, s, C, K) = %r; build_unit()' % (tuple(cfg['scales']),)
     if cfg['kind'] == 'fail':
         return 'reset_units(' + ', '.join(f'{k}={v!r}' for k, v in cfg['kw'].items()) + ') [raises]'
+    if cfg['kind'] == 'refuse':
+        args = ([repr(cfg['seed']) if cfg.get('positional') else f"seed={cfg['seed']!r}"] if 'seed' in cfg else []) \
+            + [f'{k}={v!r}' for k, v in cfg['kw'].items()]
+        return 'reset_units(' + ', '.join(args) + ') [refused]'
     return _cfg_str(cfg)
 
 
@@ -1736,6 +1824,8 @@ class _Session:
             return list(cfg['scales'])
         if k == 'fail':
             return [1.0] * 5 if cfg['leaves'] == 'SI' else prev
+        if k == 'refuse':
+            return prev
         return None
 
     # -- one step ------------------------------------------------------------------------------------------------
@@ -1749,13 +1839,19 @@ class _Session:
             cfg = {'kind': 'direct', 'scales': [float(x) for x in prev_scales[:4]] + [cfg['k']]}
         self.trail.append(cfg)
         sentinel = self._sentinel_before(rng) if self.mode == 'search' else None
+        refused = cfg['kind'] == 'refuse' or (cfg['kind'] == 'fail' and cfg.get('leaves') == 'same')
+        before = self._refusal_before(rng) if refused and self.mode == 'search' else None
         status, got = _apply_any(cfg, uc)
+        if before is not None:
+            self._refusal_after(cfg, before, status, got)
         ctx.stats.case(self.mode + ':session-step', (len(self.trail), _cfg_str_any(cfg)),
                        sample={'cfg': _cfg_str_any(cfg), 'after': _cfg_str_any(self.trail[-2]) if len(self.trail) > 1 else None})
         want_sc = self.expected_scales(cfg, prev_scales)
-        if cfg['kind'] == 'fail':
+        if cfg['kind'] in ('fail', 'refuse'):
             if status != 'raised' and self.mode == 'corr':
                 self._dis('session:reset-accepted', f'{_cfg_str_any(cfg)} is accepted')
+            if status != 'raised' and refused:
+                return None                    # (reported by _refusal_after; the state is whatever the accepted call made of it)
         elif status == 'raised':
             (self._viol if self.mode == 'search' else self._dis)(
                 'session:reset-raises', f'{_cfg_str_any(cfg)} raises {type(got).__name__}: {got}')
@@ -1766,11 +1862,107 @@ class _Session:
         vals = {k: Fraction(v) for k, v in real.items()}
         if self.mode == 'search':
             self._sentinel_after(cfg, sentinel, vals)
-            # the state a failing reset leaves is the model's business (correspondence), not a clause of the property
-            self._oracle(cfg, rng, None if cfg['kind'] == 'fail' else want_sc, real, vals, n_fresh, n_pairs, np)
+            # the state a reset that fails HALF-WAY leaves (unknown name: KeyError after the SI baseline was installed) is the
+            # model's business (correspondence), not a clause of the property; a REFUSED call (ValueError before anything is
+            # done) is no choice of working units: the ones in force before are still in force (want_sc = prev_scales)
+            self._oracle(cfg, rng, None if (cfg['kind'] == 'fail' and not refused) else want_sc, real, vals, n_fresh, n_pairs, np)
         else:
             self._model(cfg, rng, want_sc, got if status == 'ok' else None, real, vals, n_fresh, n_pairs, np)
         return want_sc
+
+    # -- a refused call changes nothing ------------------------------------------------------------------------------
+    def _last_choice(self):
+        """the keywords of the last successful named choice still in force (the units that must be one), or {}."""
+        for c in reversed(self.trail[:-1]):
+            if c['kind'] in ('refuse',) or (c['kind'] == 'fail' and c.get('leaves') == 'same'):
+                continue
+            return dict(c['kw']) if _claims_one(c) else {}
+        return {}
+
+    def _refusal_before(self, rng):
+        """the state a refused call must leave alone: the whole unit table, numericalunits' base units, and values stored
+        (converted to working units) before the call — to be read back after it."""
+        import numericalunits as nu
+        np = _np()
+        uc = self.uc
+        table = {k: float(v) for k, v in uc.unit.items()}
+        vals = {k: Fraction(v) for k, v in table.items()}
+        ok = self._inside(vals)
+        items = [it for it in self.pool.items if it[0] in ok and any(it[2])]
+        stored = []
+        for it in rng.sample(items, min(5, len(items))):
+            x = rng.choice([2.5, 1.0, cm.dyadic(rng, -8, 8, 3) or 0.5, rng.uniform(-100, 100)])
+            if not _mag_ok(Fraction(x) * ok[it[0]][0]):
+                continue
+            try:
+                w = float(_timed(uc.set_in_units, x, it[0]))
+                lit = float(_timed(uc.set_literal, repr(x) + ' ' + it[0].strip()))
+                p = _real_parse(uc, it[0])
+            except Exception:  # noqa
+                continue
+            stored.append((it, x, w, lit, p))
+        return {'table': table, 'base': [float(getattr(nu, b)) for b in BASE], 'stored': stored, 'chosen': self._last_choice()}
+
+    def _refusal_after(self, cfg, before, status, got):
+        import numericalunits as nu
+        uc, ctx = self.uc, self.ctx
+        label = _cfg_str_any(cfg)
+        last = next((c for c in reversed(self.trail[:-1]) if not (c['kind'] == 'refuse' or c['kind'] == 'fail' and c.get('leaves') == 'same')), None)
+        prior = _cfg_str_any(last) if last is not None else 'the state the process was in'
+        ctx.stats.case('oracle:session-refusal', (len(self.trail), label), sample={'call': label, 'after': prior})
+        if status == 'raised' and isinstance(got, Hang):
+            return
+        if status != 'raised' and not cfg.get('documented', True):
+            return
+        if status != 'raised':
+            self._viol('session:refusal-removed', f'{label} is accepted; the documentation refuses it (ValueError: seed given with '
+                       f'other parameters / more than four working units)')
+            return
+        if not isinstance(got, ValueError):
+            self._viol('session:refusal-kind', f'{label} raises {type(got).__name__}: {got}; the documented refusal is a ValueError '
+                       f'(raised before anything is looked up or changed)')
+        # the whole unit table, bit for bit
+        now = {k: float(v) for k, v in uc.unit.items()}
+        if now != before['table']:
+            ch = sorted(k for k in set(now) | set(before['table']) if now.get(k) != before['table'].get(k))
+            first = [n for n in before['chosen'].values() if n in ch] + [n for n in ('angstrom', 'nm', 'm', 'eV', 'J', 'amu', 's') if n in ch] + ch
+            n = first[0]
+            self._viol('session:refused-call-changes-units', f'{label} raises {type(got).__name__} ({got}) but changes the working units: '
+                       f'{len(ch)} of {len(now)} entries of uc.unit differ, e.g. unit[{n!r}] was {before["table"].get(n)!r} (after {prior}) and is '
+                       f'now {now.get(n)!r}', [n])
+        base = [float(getattr(nu, b)) for b in BASE]
+        if base != before['base']:
+            self._viol('session:refused-call-changes-units', f'{label} raises {type(got).__name__} ({got}) but changes numericalunits\' base '
+                       f'units (m, kg, s, C, K) from {before["base"]} to {base}')
+        # each unit chosen by the last successful call is still one
+        for k, n in before['chosen'].items():
+            ctx.stats.case('oracle:session-refusal-chosen', (len(self.trail), n))
+            try:
+                v = float(uc.unit[n])
+            except Exception as ex:  # noqa
+                v = f'{type(ex).__name__}: {ex}'
+            if isinstance(v, str) or not abs(v - 1.0) <= 64 * U:
+                self._viol('session:refused-call-changes-chosen', f'after {prior} and the refused {label}, uc.unit[{n!r}] = {v!r}, not 1 '
+                           f'({k}={n!r} is still the chosen unit: the refused call chose nothing)', [n])
+        # values stored before the call read back; expressions still have the value they had
+        for it, x, w, lit, p in before['stored']:
+            ctx.stats.case('oracle:session-refusal-readback', (len(self.trail), it[0], x))
+            s = it[0]
+            reads = [('get_in_units(w, %r) with w = set_in_units(%r, %r) stored before the call' % (s, x, s),
+                      lambda: float(_timed(uc.get_in_units, w, s)), x, 4 + 2 * it[4]),
+                     ('get_in_units(w, %r) with w = set_literal(%r) stored before the call' % (s, repr(x) + ' ' + s.strip()),
+                      lambda: float(_timed(uc.get_in_units, lit, s)), x, 4 + 2 * it[4]),
+                     ('set_in_units(%r, %r)' % (x, s), lambda: float(_timed(uc.set_in_units, x, s)), w, 0),
+                     ('parse(%r)' % s, lambda: _real_parse(uc, s), p, 0)]
+            for what, f, want, e in reads:
+                try:
+                    g = f()
+                except Exception as ex:  # noqa
+                    g = f'{type(ex).__name__}: {ex}'
+                if isinstance(g, str) or g != g or not abs(g - want) <= e * U * abs(want):
+                    self._viol('session:refused-call-changes-stored-value', f'after {prior}, then the refused {label}: uc.{what} gives '
+                               f'{g!r}, expected {want!r} (the value it had before the refused call)', [s])
+                    break
 
     # -- last call before / first call after a change of working units --------------------------------------------------
     def _sentinel_before(self, rng):
@@ -2067,8 +2259,12 @@ def run_sessions(ctx, rng, uc, mode, n_core, walk_steps, n_fresh, n_pairs):
     prev = None
     for i in (pair_walk(len(core)) if mode == 'search' else euler_walk(len(core))):
         prev = sess.step(core[i], rng, prev, n_fresh, n_pairs)
-    for cfg in one_key_walk(rng, t, walk_steps):
+    for cfg in one_key_walk(rng, t, walk_steps, refusals=(mode == 'search')):
         prev = sess.step(cfg, rng, prev, n_fresh, n_pairs)
+    if mode == 'search':
+        # (3) every kind of REFUSED call after every kind of state: nothing may change (table, base units, stored values)
+        for cfg in refusal_tour(rng, t):
+            prev = sess.step(cfg, rng, prev, n_fresh, n_pairs)
     ctx.extra[mode + '_session_steps'] = len(sess.trail)
     ctx.extra['session_pool'] = len(pool.items)
 
